@@ -126,7 +126,13 @@ func genValues(c *mc.Ctx, thorough bool) (vals []*rm.Value, class string) {
 	}
 }
 
-var modeNames = []string{"text", "pretty", "binary", "text-quiet"}
+var modeNames = []string{"text", "pretty", "binary", "text-quiet", "text-imports", "binary-imports"}
+
+// genImport is the shared table the "-imports" writer modes are constructed with: the text
+// writer then emits a symbol table before the first value, the binary writer uses import IDs.
+var genImportSyms = []string{"a", "zz_imported", "name"}
+
+func genImport() ion.SharedSymbolTable { return ion.NewSharedSymbolTable("gen_shared", 1, genImportSyms) }
 
 func newWriter(mode int, buf *bytes.Buffer) ion.Writer {
 	switch mode {
@@ -136,6 +142,10 @@ func newWriter(mode int, buf *bytes.Buffer) ion.Writer {
 		return ion.NewTextWriterOpts(buf, ion.TextWriterPretty)
 	case 3:
 		return ion.NewTextWriterOpts(buf, ion.TextWriterQuietFinish)
+	case 4:
+		return ion.NewTextWriter(buf, genImport())
+	case 5:
+		return ion.NewBinaryWriter(buf, genImport())
 	}
 	return ion.NewBinaryWriter(buf)
 }
